@@ -40,10 +40,11 @@ XR_OPS = [
     "isel_kw", "isel_list", "isel_slice", "isel_posdict", "isel_indexers_kw", "getitem", "sel",
     "mean", "sum", "max", "min", "std", "median", "count", "argmax", "cumsum", "cumprod", "rolling_mean", "rolling_sum",
     "transpose", "T", "rename", "rename_dim", "assign_coords", "expand_dims", "squeeze1", "shift", "diff",
-    "concat_old", "concat_new", "copy_shallow", "copy_deep", "deepcopy", "isel_lead_and_grid",
+    "concat_old", "concat_new", "copy_shallow", "copy_deep", "deepcopy", "copy_deep_data", "copy_default_data", "copy_shallow_data", "isel_lead_and_grid",
     "sum_grid", "mean_grid", "max_grid",
 ]
 UX_OPS = ["ux.isel_face", "ux.isel_node", "ux.integrate", "ux.gradient", "ux.difference", "ux.topological_mean", "ux.remap_nn", "ux.get_dual", "ux.isel_two_dims"]
+DEEP_COPIES = ("copy_deep", "deepcopy", "copy_deep_data", "copy_default_data")
 PLAIN_ARITH = {"add", "sub", "mul", "rsub", "neg", "abs", "pow2", "add_self", "mul_np", "gt", "eq"}
 # operations that xarray routes through apply_ufunc / rolling / isnull: the family of the known finding
 APPLY_UFUNC_FAMILY = {"np.sin", "np.tanh", "np.add", "np.maximum", "np.abs", "where1", "where2", "clip", "fillna", "astype32", "astype64", "astypeint", "isnull", "rolling_mean", "rolling_sum"}
@@ -147,7 +148,7 @@ def run_case(case, ctx):
         if cur.uxgrid is None:
             return True
         ctx.ev("deep_copy_of_result")
-        cp = cur.copy(deep=True)
+        cp = cur.copy(deep=True) if step % 2 == 0 else cur.copy(deep=True, data=np.asarray(cur.values).copy())
         if not isinstance(cp, ux.UxDataArray) or cp.uxgrid is None or cp.uxgrid is cur.uxgrid or not (cp.uxgrid == cur.uxgrid):
             shares = getattr(cp, "uxgrid", None) is cur.uxgrid
             bad("same_grid", "probe:copy_deep-after:" + op, "deep-copy-shares-grid" if shares else "deep-copy-grid-wrong", f"step {step}: a deep copy of the result of {op} (dims {cur.dims}) has grid {'the same object' if shares else getattr(cp, 'uxgrid', None)}")
@@ -301,6 +302,13 @@ def run_case(case, ctx):
                 import copy as _copy
 
                 f = lambda q: _copy.deepcopy(q)
+            elif op == "copy_deep_data":
+                # replacement data: xarray ignores `deep` for the data variable only; it is still a deep copy
+                f = lambda q: q.copy(deep=True, data=np.asarray(q.values)[..., ::-1].copy())
+            elif op == "copy_default_data":
+                f = lambda q: q.copy(data=np.asarray(q.values)[..., ::-1].copy())  # deep defaults to True
+            elif op == "copy_shallow_data":
+                f = lambda q: q.copy(deep=False, data=np.asarray(q.values)[..., ::-1].copy())
             elif op in ("sum_grid", "mean_grid", "max_grid"):
                 # reduction over the grid dimension itself: the result carries no grid dimension but stays attached
                 if gd is None or not leads:
@@ -434,7 +442,7 @@ def run_case(case, ctx):
             if res is None:
                 return fails
             ctx.ev("same_grid")
-            if op in ("copy_deep", "deepcopy"):
+            if op in DEEP_COPIES:
                 if res.uxgrid is None or res.uxgrid is g0:
                     bad("same_grid", site, "deep-copy-shares-grid" if res.uxgrid is g0 else "grid=None", f"step {step}: deep copy's grid is {'the same object' if res.uxgrid is g0 else 'None'}")
                 elif not (res.uxgrid == g0):
@@ -462,7 +470,7 @@ def run_case(case, ctx):
             if not check_dims(res, site, step):
                 return fails
             d, x = res, ex
-            if a % 2 == 0 and op not in ("copy_deep", "deepcopy") and not probe_copy(d, op, step):
+            if a % 2 == 0 and op not in DEEP_COPIES and not probe_copy(d, op, step):
                 return fails
             if d.ndim == 0:
                 break
